@@ -77,14 +77,14 @@ theorem mapChildren_ns (t : HTree) : mapChildren .namespaces t = t.kids.takeWhil
 theorem mapChildren_attr (t : HTree) :
     mapChildren .attributes t = (t.kids.dropWhile (isCat .namespace)).takeWhile (isCat .attribute) := rfl
 
-theorem mapChildren_sub (k : MapKind) (t : HTree) : ∀ y ∈ mapChildren k t, y ∈ t.kids := by
+theorem fi_mapChildren_sub (k : MapKind) (t : HTree) : ∀ y ∈ mapChildren k t, y ∈ t.kids := by
   intro y hy
   cases k with
   | namespaces => exact List.takeWhile_subset _ hy
   | attributes => exact List.dropWhile_subset _ (List.takeWhile_subset _ hy)
 
 /-- An attribute / namespace node, or any other non-element non-document, is no proper ancestor. -/
-theorem leaf_not_ancestor {g : Forest} (hi : g.Inv) {node x : Nat} {ev : Value}
+theorem fi_leaf_not_ancestor {g : Forest} (hi : g.Inv) {node x : Nat} {ev : Value}
     (hnv : g.value? node = some ev) (he : ev.isElement = false) (hd : ev.isDocument = false)
     (hx : x ∈ g.allHandles) (hne : x ≠ node) : (g.ancestors x).contains node = false := by
   cases hc : (g.ancestors x).contains node with
@@ -96,7 +96,7 @@ theorem leaf_not_ancestor {g : Forest} (hi : g.Inv) {node x : Nat} {ev : Value}
     have hCv : C.value = ev := by
       have := value?_of_loc lc hi.nodup; rw [hnv] at this; exact (Option.some.inj this).symm
     have hkids : C.kids = [] := kids_nil_of_valid (hi.validTree_of_loc lc) (by rw [hCv]; exact he) (by rw [hCv]; exact hd)
-    rw [handles_eq, hkids, lc.hk] at hmem
+    rw [fi_handles_eq, hkids, lc.hk] at hmem
     simp at hmem
     exact hne hmem
 
@@ -146,8 +146,8 @@ theorem mapPlace_after {g : Forest} (hi : g.Inv) {parent node : Nat} {en : Nat} 
   have hpar : parent ∈ g.allHandles := by
     unfold allHandles; rw [locp.eq, mem_handlesList_plug]
     refine Or.inr ?_
-    simp only [handlesList_append, handlesList_cons, List.mem_append]
-    exact Or.inr (Or.inl (locp.hk ▸ handle_mem_handles K))
+    simp only [fi_handlesList_append, handlesList_cons, List.mem_append]
+    exact Or.inr (Or.inl (locp.hk ▸ fi_handle_mem_handles K))
   have hpv : g.value? parent = some (.element en) := by rw [value?_of_loc locp nd, hKv]
   apply checkedInsertAfter_gen hi hnv (value?_of_loc locip nd)
     (isRoot_of_loc_ne locip (by simp) nd) ?_ (cutOK_of_abnormal hi hnv hcn)
@@ -161,7 +161,7 @@ theorem mapPlace_after {g : Forest} (hi : g.Inv) {parent node : Nat} {en : Nat} 
   · rw [ancestors_of_ctx? nd hctxip]
     simp only [List.contains_cons, Bool.or_eq_false_iff, beq_eq_false_iff_ne, ne_eq]
     refine ⟨fun e => hne e.symm, ?_⟩
-    apply leaf_not_ancestor hi hnv he hd hpar
+    apply fi_leaf_not_ancestor hi hnv he hd hpar
     intro e
     rw [e, hnv] at hpv; cases hpv; cases he
 
